@@ -19,9 +19,14 @@
    plus the connection loop that drives a MasterTask in production (util/session.rs,
    tcp/master/client.rs), reduced to: connected <-> enabled /\ link up /\ not shut down.
 
-   One step = one stimulus followed by 1 ms of virtual time (the harness settles for 1 ms after
-   every op); [ESleep n] is n further milliseconds.  While time passes every armed deadline fires at
-   its exact instant.  Time is in whole milliseconds.
+   One step ([mstep]) = one stimulus ([on_event], which never starts a task itself), the task loop
+   of MasterSession::run ([run_pump]: start tasks until one waits for its response), then 1 ms of
+   virtual time ([advance]; the harness settles for 1 ms after every op); [ESleep n] is n further
+   milliseconds.  While time passes every armed deadline fires at its exact instant.  Time is in
+   whole milliseconds.  Observations carry their virtual time; [OStep] marks the beginning of a
+   step; transmissions are tagged with their role ([OTxReq] / [OTxConfirm]) and printed as the
+   octets [request_bytes] / [confirm_bytes]; [started] in [running] is a ghost field (when the task
+   was started) used only by the timing theorem.
 
    ABSTRACTED (see also MParse.v, Command.v):
    * object sections are opaque octets; the receive event carries (i) the real parser's verdict on
